@@ -105,7 +105,14 @@ def run_plan_property(prop, tier, seed, checks, nontrivial, describe, known_filt
                                 {"kind": "input", "failing_input": l, "emitted": b, "model": a, "violations": ebad[:5],
                                  "reproduce": "render the declaration (vlib/render.py) and run `kessoku` on it; the emitted function has the structure shown"})
                     break
-            if not R.violations:
+        # fault-free runs of the compiled injectors (plain and under random provider latencies): order of provider entries,
+        # returned value, termination, goroutines joined
+        if prop in ("C01", "C02", "C03") and not R.violations:
+            given = p_e2e.run_runtime(ES, tier, seed, fault_free_only=True)
+            nrun, _ = p_e2e.judge_runtime(R, ES, tier, seed, {prop}, given=given)
+            R.coverage["fault_free_runs_of_compiled_injectors"] = nrun
+        if ediffs and not R.violations:
+            if True:
                 i, l, a, b = ediffs[0]
                 R.violation("the emitted code differs from the model's emission on %d declarations; the property's conditions hold on every emitted function" % len(ediffs),
                             {"kind": "correspondence-broken", "correspondence": "KV.planDumpE vs harness/extract of *_band.go", "case": l, "model": a, "impl": b})
